@@ -5,11 +5,8 @@ package sx
 import (
 	"fmt"
 
-	"golang.org/x/tools/go/ssa"
-	"runtime/debug"
 	"go/token"
 	"go/types"
-	"strings"
 )
 
 // symv is a symbolic scalar (bool or integer).
@@ -335,315 +332,6 @@ func symStrBinop(op token.Token, x, y value) value {
 	panic(fmt.Sprintf("symStrBinop: %v", op))
 }
 
-// ---------------------------------------------------------------------
-// explorer
-
-type abortPath struct{ reason string }
-
-type Violation struct {
-	Harness string
-	Label   string
-	Model   map[string]uint64
-	Trace   []int
-	Inputs  []InputRec
-}
-
-// InputRec is one nondet call in call order; Vars name the solver variables (one per byte for strings).
-type InputRec struct {
-	K    string
-	L    string
-	Vars []string
-	V    int64 // for concrete choices
-}
-
-// ReplayScript renders the inputs of a violation with model values filled in.
-func (v Violation) ReplayScript() []map[string]any {
-	var out []map[string]any
-	for _, in := range v.Inputs {
-		m := map[string]any{"k": in.K, "l": in.L}
-		switch in.K {
-		case "choose":
-			m["v"] = in.V
-		case "string":
-			b := []int{}
-			for _, n := range in.Vars {
-				b = append(b, int(v.Model[n]))
-			}
-			m["b"] = b
-		default:
-			var x uint64
-			if len(in.Vars) > 0 {
-				x = v.Model[in.Vars[0]]
-			}
-			m["v"] = int64(x)
-		}
-		out = append(out, m)
-	}
-	return out
-}
-
-type Explorer struct {
-	Solver     *Solver
-	Solver2    *Solver
-	prefix     []int
-	pos        int
-	trace      []int
-	pc         []*Term
-	work       [][]int
-	seq        int
-	Paths      int
-	Aborted    map[string]int
-	Violations []Violation
-	Reached    map[string]int
-	Proved     map[string]int
-	harness    string
-	Steps      int64
-	MaxSteps   int64
-	MaxPaths   int
-	Verbose    bool
-	Inputs     []string
-	PanicStack string
-	Events     []string
-	ufApps     []ufApp
-	specDepth  int
-	replaced   map[*ssa.Function]value
-	inReplace  map[*ssa.Function]bool
-	SQLModel   bool
-	sqlRows    map[*value]tuple
-	pending    []value
-	inStep     bool
-	IntMode    bool
-	ExactFloat bool
-	lastNow    *Term
-	InputLog   []InputRec
-	IfConverted int
-}
-
-var X *Explorer
-
-func (e *Explorer) noteDivisor(b *Term) {
-	if b.Op == "const" {
-		if b.Val == 0 {
-			panic("runtime error: integer divide by zero")
-		}
-		return
-	}
-	// fork: divisor == 0 panics
-	zero := Eq(b, BVConst(0, b.Sort.Width))
-	if e.decide(zero) {
-		panic("runtime error: integer divide by zero")
-	}
-}
-
-func (e *Explorer) addPC(ts ...*Term) {
-	for _, t := range ts {
-		if t.Op == "true" {
-			continue
-		}
-		e.pc = append(e.pc, t)
-		if !e.IntMode {
-			e.Solver.Assert(t)
-		}
-	}
-}
-
-func (e *Explorer) feasible(extra *Term) bool {
-	if extra.Op == "true" {
-		return true
-	}
-	if extra.Op == "false" {
-		return false
-	}
-	var r string
-	if e.IntMode {
-		r, _ = e.Solver2.CheckOneShot(append(append([]*Term{}, e.pc...), extra), false, 20000)
-	} else {
-		r, _ = e.Solver.Check(extra, false, 10000)
-	}
-	if r == "sat" {
-		return true
-	}
-	if r == "unsat" {
-		return false
-	}
-	panic(abortPath{"solver " + r})
-}
-
-// decide returns the direction taken for a symbolic condition.
-func (e *Explorer) decide(c *Term) bool {
-	if c.Op == "true" {
-		return true
-	}
-	if c.Op == "false" {
-		return false
-	}
-	if e.pos < len(e.prefix) {
-		d := e.prefix[e.pos]
-		e.pos++
-		e.trace = append(e.trace, d)
-		if d == 1 {
-			e.addPC(c)
-		} else {
-			e.addPC(Not(c))
-		}
-		return d == 1
-	}
-	e.pos++
-	canT := e.feasible(c)
-	canF := e.feasible(Not(c))
-	switch {
-	case canT && canF:
-		alt := append(append([]int{}, e.trace...), 0)
-		e.work = append(e.work, alt)
-		e.trace = append(e.trace, 1)
-		e.addPC(c)
-		return true
-	case canT:
-		e.trace = append(e.trace, 1)
-		e.addPC(c)
-		return true
-	case canF:
-		e.trace = append(e.trace, 0)
-		e.addPC(Not(c))
-		return false
-	}
-	panic(abortPath{"infeasible path condition"})
-}
-
-// choose forks n ways without a solver query.
-func (e *Explorer) choose(n int) int {
-	if n <= 1 {
-		return 0
-	}
-	if e.pos < len(e.prefix) {
-		d := e.prefix[e.pos]
-		e.pos++
-		e.trace = append(e.trace, d)
-		return d
-	}
-	e.pos++
-	for i := n - 1; i >= 1; i-- {
-		alt := append(append([]int{}, e.trace...), i)
-		e.work = append(e.work, alt)
-	}
-	e.trace = append(e.trace, 0)
-	return 0
-}
-
-func (e *Explorer) fresh(label string, s Sort) *Term {
-	e.seq++
-	name := fmt.Sprintf("|%s#%d|", strings.ReplaceAll(label, "|", "_"), e.seq)
-	e.Inputs = append(e.Inputs, name)
-	return Var(name, s)
-}
-
-func (e *Explorer) assume(c value) {
-	switch c := c.(type) {
-	case bool:
-		if !c {
-			panic(abortPath{"assume false"})
-		}
-	case symv:
-		if !e.feasible(c.t) {
-			panic(abortPath{"assume infeasible"})
-		}
-		e.addPC(c.t)
-	}
-}
-
-func (e *Explorer) assert(label string, c value) {
-	e.Reached[label]++
-	switch c := c.(type) {
-	case bool:
-		if !c {
-			r, m := e.Solver.Check(nil, true, 10000)
-			if r == "sat" {
-				e.Violations = append(e.Violations, Violation{e.harness, label, m, append([]int{}, e.trace...), append([]InputRec{}, e.InputLog...)})
-			}
-			panic(abortPath{"assert failed (concrete): " + label})
-		}
-		e.Proved[label]++
-	case symv:
-		var r string
-		var m map[string]uint64
-		if e.IntMode {
-			r, m = e.Solver2.CheckOneShot(append(append([]*Term{}, e.pc...), Not(c.t)), true, 60000)
-		} else {
-			r, m = e.Solver.Check(Not(c.t), true, 30000)
-		}
-		switch r {
-		case "unsat":
-			e.Proved[label]++
-		case "sat":
-			e.Violations = append(e.Violations, Violation{e.harness, label, m, append([]int{}, e.trace...), append([]InputRec{}, e.InputLog...)})
-			// continue under the assumption that it held, if possible
-			if !e.feasible(c.t) {
-				panic(abortPath{"assert always fails: " + label})
-			}
-		default:
-			panic(abortPath{"assert undecided: " + r})
-		}
-		e.addPC(c.t)
-	}
-}
-
-// Run explores all paths of fn (a niladic harness function).
-func (e *Explorer) Run(i *interpreter, name string, run func()) {
-	e.harness = name
-	e.work = [][]int{nil}
-	for len(e.work) > 0 {
-		p := e.work[len(e.work)-1]
-		e.work = e.work[:len(e.work)-1]
-		e.prefix, e.pos, e.trace, e.pc, e.seq = p, 0, nil, nil, 0
-		e.Inputs = nil
-		e.PanicStack = ""
-		e.Events = nil
-		e.ufApps = nil
-		e.specDepth = 0
-		e.replaced = nil
-		e.inReplace = nil
-		e.SQLModel = false
-		e.sqlRows = nil
-		e.pending = nil
-		e.inStep = false
-		e.IntMode = false
-		e.ExactFloat = false
-		e.lastNow = nil
-		e.InputLog = nil
-		e.Steps = 0
-		base := e.Solver.Depth()
-		e.Solver.Push()
-		func() {
-			defer func() {
-				e.Solver.PopTo(base)
-				if r := recover(); r != nil {
-					switch r := r.(type) {
-					case abortPath:
-						e.Aborted[r.reason]++
-					case targetPanic:
-						e.Aborted["panic: "+toString(r.v)]++
-					default:
-						if e.Verbose && e.Aborted[fmt.Sprintf("interp: %v", r)] == 0 {
-							fmt.Printf("INTERP PANIC: %v\n%s\n", r, e.PanicStack)
-						}
-						_ = debug.Stack
-						e.Aborted[fmt.Sprintf("interp: %v", r)]++
-					}
-				}
-			}()
-			run()
-		}()
-		e.Paths++
-		if e.Verbose && e.Paths%500 == 0 {
-			fmt.Printf("  ... %d paths, %d pending, %d queries\n", e.Paths, len(e.work), e.Solver.Queries)
-		}
-		if e.MaxPaths > 0 && e.Paths >= e.MaxPaths {
-			e.Aborted["path limit"]++
-			break
-		}
-	}
-}
-
 const tokenEQL = token.EQL
 
 // concIndex concretises an index (forking over feasible values when symbolic)
@@ -759,9 +447,3 @@ func (it *symStrIter) next() tuple {
 	panic("symStrIter: bad element")
 }
 
-func (e *Explorer) intSort() Sort {
-	if e.IntMode {
-		return IntSort
-	}
-	return BV(64)
-}
